@@ -1,6 +1,7 @@
 //! Conformance harness for minidump-writer: shared pieces of `mdw-drive` and `mdw-target`.
 pub mod dirops;
 pub mod imgops;
+pub mod maps;
 pub mod recdest;
 pub mod rng;
 pub mod trace;
